@@ -124,6 +124,13 @@ def P_varn_vard(c, np):
         c.op(r, 'put', f=0, form='vard', v=0, s=[2 * r], c=[2], coll=1, mem='int', api='flex', vals=[4, 5])
     for r in range(np):
         c.op(r, 'get', f=0, form='vard', v=0, s=[2 * r], c=[2], coll=1, mem='int', api='flex')
+    # vard writes to the record variable that create a new record each: the vard path has its own record-count update (added for C11-f)
+    for r in range(np):
+        c.op(r, 'put', f=0, form='vard', v=1, s=[2, 2 * r], c=[1, 2], coll=1, mem='int', api='flex', vals=[6, 7])
+    c.op('*', 'begin_indep', f=0)
+    for r in range(np):
+        c.op(r, 'put', f=0, form='vard', v=1, s=[3 + r, 2 * r], c=[1, 2], coll=0, mem='int', api='flex', vals=[8, 9])
+    c.op('*', 'end_indep', f=0)
     c.op('*', 'close', f=0)
 
 
